@@ -95,6 +95,10 @@ pub struct Case {
     /// bonded denomination: 0 the default "TOKEN", otherwise a configured one
     #[serde(default)]
     pub bonded: u8,
+    /// a second application with other staking parameters is built right after this one and stays alive
+    /// during the run (two chains in one thread, the other configured last)
+    #[serde(default)]
+    pub decoy: bool,
     pub ops: Vec<SOp>,
 }
 
@@ -1043,6 +1047,23 @@ pub fn build(case: &Case) -> Run {
 
 pub fn execute_case(case: &Case) -> RunResult {
     let mut run = build(case);
+    let _decoy = if case.decoy {
+        use cw_multi_test::App;
+        Some(App::new(|router, api, storage| {
+            router
+                .staking
+                .setup(storage, StakingInfo { bonded_denom: "decoycoin".to_string(), unbonding_time: 7, apr: Decimal::percent(50) })
+                .unwrap();
+            let block = mock_env().block;
+            let v = api.addr_make("decoyvalidator");
+            router
+                .staking
+                .add_validator(api, storage, &block, Validator::create(v.to_string(), Decimal::percent(3), Decimal::one(), Decimal::one()))
+                .unwrap();
+        }))
+    } else {
+        None
+    };
     run.check_state("setup");
     let mut sig = Fnv::new();
     for op in &case.ops {
@@ -1250,6 +1271,7 @@ impl Engine for StakeSim {
             unbonding_secs,
             init_balance: *rng.pick(&[10u64, 1000, 100_000, 1_000_000_000]),
             bonded: if rng.chance(1, 3) { 1 + rng.below(2) as u8 } else { 0 },
+            decoy: rng.chance(1, 4),
             ops,
         }
     }
